@@ -537,3 +537,69 @@ Proof.
   split; [vm_compute; reflexivity|]. split; [reflexivity|].
   vm_compute. reflexivity.
 Qed.
+
+(* ------------------------------------------------------------------ *)
+(* exit status of dclab-verify-dataset                                 *)
+(* ------------------------------------------------------------------ *)
+Lemma exit_status_range r v a :
+  In (exit_status r v a) [0; 1; 2; 3; 4].
+Proof.
+  unfold exit_status. destruct r; [cbn; tauto|].
+  destruct ((0 <? a) && (0 <? v)); [cbn; tauto|].
+  destruct (0 <? a); [cbn; tauto|]. destruct (0 <? v); cbn; tauto.
+Qed.
+
+Lemma verify_exit_zero f a :
+  0 <= a -> (verify_exit f a = 0 <-> violations f = Some [] /\ a = 0).
+Proof.
+  intros Ha. unfold verify_exit, exit_status.
+  destruct (violations f) as [cs|].
+  - destruct cs as [|c cs]; cbn [length].
+    + change (Z.of_nat 0) with 0. cbn [Z.ltb Z.compare andb].
+      rewrite andb_false_r. destruct (0 <? a) eqn:E; split.
+      * discriminate.
+      * intros [_ H]. lia.
+      * intros _. split; [reflexivity|lia].
+      * reflexivity.
+    + assert (P : 0 <? Z.of_nat (S (length cs)) = true) by lia. rewrite P.
+      rewrite andb_true_r. destruct (0 <? a); split; try discriminate;
+        intros [H _]; discriminate.
+  - split; [discriminate|]. intros [H _]. discriminate.
+Qed.
+
+Lemma verify_exit_violations f cs a :
+  0 <= a -> violations f = Some cs -> cs <> [] ->
+  (a = 0 -> verify_exit f a = 2) /\ (0 < a -> verify_exit f a = 3).
+Proof.
+  intros Ha Hv Hne. unfold verify_exit, exit_status. rewrite Hv.
+  destruct cs as [|c cs]; [contradiction|]. cbn [length].
+  assert (P : 0 <? Z.of_nat (S (length cs)) = true) by lia. rewrite P.
+  rewrite andb_true_r. split; intros H.
+  - subst a. reflexivity.
+  - assert (Q : 0 <? a = true) by lia. rewrite Q. reflexivity.
+Qed.
+
+Lemma verify_exit_raises f a : violations f = None -> verify_exit f a = 4.
+Proof. intros H. unfold verify_exit. rewrite H. reflexivity. Qed.
+
+Lemma writer_output_exit f n g :
+  complete_input f n = true -> rectify f = Some g -> verify_exit g 0 = 0.
+Proof.
+  intros HC HR. apply verify_exit_zero; [lia|]. split; [|reflexivity].
+  eapply writer_output_clean; eassumption.
+Qed.
+
+(* export of a subset: the writer applied to the remaining features and the
+   source's completed metadata.  Clean whenever that input is still complete
+   and consistent (guard); the guard fails for [ex_two_channels] without
+   fl1_max (export_subset_refuted) and holds e.g. without the scalar *)
+Lemma export_subset_clean_partial g r n g' :
+  complete_input (drop_feat r g) n = true ->
+  rectify (drop_feat r g) = Some g' -> violations g' = Some [].
+Proof. apply writer_output_clean. Qed.
+
+Example export_subset_guard :
+  exists g, rectify ex_two_channels = Some g
+            /\ complete_input (drop_feat 0 g) 3 = true
+            /\ complete_input (drop_feat 1 g) 3 = false.
+Proof. eexists. split; [reflexivity|]. split; vm_compute; reflexivity. Qed.
